@@ -570,6 +570,10 @@ func runC06(args []string) error {
 	}
 	aprogs := c06AssertPrograms() // type-assertion matrix: complete in every run
 	ecells := c06EntryCells()     // entry point x panic site x value: complete in every run
+	rprogs := c06ReachPrograms()  // callee kind x how the deferred function is reached x use x value: complete in every run
+	reachID := func(i int) int {
+		return len(cases) + len(pool) + len(sessions) + len(aprogs) + len(ecells) + 1 + i
+	}
 	poolID := func(i int) int { return len(cases) + 1 + i }
 	sessID := func(i int) int { return len(cases) + len(pool) + 1 + i }
 	assertID := func(i int) int { return len(cases) + len(pool) + len(sessions) + 1 + i }
@@ -598,6 +602,9 @@ func runC06(args []string) error {
 		for i, ap := range aprogs {
 			progs = append(progs, goProg{Name: fmt.Sprintf("c%05d", assertID(i)), Files: map[string]string{"main.go": ap.Src, "defs": asDefs(ap.Src)}})
 		}
+		for i, rp := range rprogs {
+			progs = append(progs, goProg{Name: fmt.Sprintf("c%05d", reachID(i)), Files: map[string]string{"main.go": rp.Src, "defs": asDefs(rp.Src)}})
+		}
 		var err error
 		refs, err = c06RefAll(progs, 10*time.Second)
 		refDone <- err
@@ -617,6 +624,9 @@ func runC06(args []string) error {
 	}
 	for i := range ecells {
 		ins = append(ins, c06ChildIn{ID: entryID(i), Entry: &ecells[i]})
+	}
+	for i, rp := range rprogs {
+		ins = append(ins, c06ChildIn{ID: reachID(i), Src: rp.Src, Aux: true})
 	}
 	outs := c06RunChildren(ins, 4*time.Second)
 	tImpl := time.Since(t0)
@@ -779,6 +789,48 @@ func runC06(args []string) error {
 			sm.HarnessViolations = append(sm.HarnessViolations, refMismatch{ID: id, Region: "", Input: in, Impl: drift, Ref: "recorded behaviour (c06AssertToday)", Note: drift[0]})
 		}
 	}
+	// ---- how the deferred function is reached: every cell vs compiled Go, and vs the mechanism rule where it differs
+	for i, rp := range rprogs {
+		id := reachID(i)
+		impl := outs[id]
+		ref := refs[fmt.Sprintf("c%05d", id)]
+		il, rl := c06ReachResults(impl.Stdout), c06ReachResults(ref.Stdout)
+		in := map[string]any{"shape": "reach", "kind": rp.Kind, "reach": rp.Form, "source": rp.Src}
+		sm.CaseIndex[fmt.Sprint(id)] = in
+		sm.Evaluations++
+		sm.RefComparisons++
+		sm.count("stream:reach")
+		distinct.add("reach", rp.Src)
+		var known, unknown, drift []string
+		for _, c := range rp.Cells {
+			sm.count("reach-cell:" + c.Kind + ":" + c.Form)
+			want := c06ReachExpectedYaegi(c, rl[c.ID])
+			desc := fmt.Sprintf("%s: yaegi %q, compiled Go %q", c.ID, il[c.ID], rl[c.ID])
+			switch {
+			case il[c.ID] != want:
+				if want != rl[c.ID] {
+					drift = append(drift, desc+fmt.Sprintf(", mechanism of the unchanged tree %q", want))
+				} else {
+					unknown = append(unknown, desc)
+				}
+			case il[c.ID] != rl[c.ID]:
+				known = append(known, desc)
+			}
+		}
+		if ref.End != "ok" || impl.End != "ok" {
+			unknown = append(unknown, fmt.Sprintf("program ends: yaegi %q, compiled Go %q", impl.End, ref.End))
+		}
+		if len(known) > 0 {
+			sm.count("region:funcvalue-recover-anchor")
+			sm.RefMismatches = append(sm.RefMismatches, refMismatch{ID: id, Region: "funcvalue-recover-anchor", Input: in, Impl: known, Ref: "compiled Go", Note: known[0]})
+		}
+		if len(unknown) > 0 {
+			sm.RefMismatches = append(sm.RefMismatches, refMismatch{ID: id, Region: "", Input: in, Impl: unknown, Ref: "compiled Go", Note: unknown[0]})
+		}
+		if len(drift) > 0 {
+			sm.HarnessViolations = append(sm.HarnessViolations, refMismatch{ID: id, Region: "", Input: in, Impl: drift, Ref: "mechanism rule c06ReachYaegiEffective", Note: drift[0]})
+		}
+	}
 	// ---- entry points x panic sites: every cell vs the contract; cells of finding import-init-panic-escapes vs today's behaviour
 	for i, c := range ecells {
 		id := entryID(i)
@@ -837,6 +889,7 @@ func runC06(args []string) error {
 		"pool stream (c06_aux.go): deferred method values of host types, interpreted methods with value/pointer receivers, function values in slices/fields/variables with 0..n arguments, the same defer statement executed in a loop and in a recursion on different receivers; compared with compiled Go (and, for interpreted methods in a loop, with the rendering of model Y); not evaluated in Coq",
 		"session stream (c06_aux.go): one interpreter; named function, methods, closure / method value / literal in package variables, global state and host-held function values are used from later Evals and natively after each of 13 kinds of panicking Eval; compared step by step with the same session compiled; not evaluated in Coq",
 		"assert stream (c06_assert.go): failed type assertion as a run-time fault: operand static type x dynamic value x target (concrete, script interface with fewer/equal/more/other methods, host interface, empty interface) x single-value and comma-ok, complete matrix in every run, each cell vs compiled Go; the cells on which the unchanged tree already deviates are held to the recorded baseline c06AssertToday (behavioural, not a model); not evaluated in Coq",
+		"reach stream (c06_reach.go): recover in a callee of kind package-level function / value- and pointer-receiver method / literal (0 or 1 argument) reached by direct name, local variable, package variable, slice element, struct field, map element, parameter, function result, range variable, either deferred itself or called by a deferred literal, with a string panic, a fault or none; complete matrix in every run, each cell vs compiled Go; where the unchanged tree deviates (finding funcvalue-recover-anchor) the cell is held to the mechanism rule c06ReachYaegiEffective (frame where the value was taken); not evaluated in Coq; left out: function returning a package-level function, method expressions (yaegi cannot run them)",
 		"entry stream (c06_entry.go): Eval, EvalWithContext, EvalPath, EvalPathWithContext, Compile+Execute, Compile+ExecuteWithContext, REPL x panic in main / init / package variable / deferred call / nested call / init and variable initialiser of an imported source package x string, error, fault; each cell in a child process against the contract (interp.Panic with the value, no Go panic on any goroutine, 1+1 afterwards); not evaluated in Coq",
 		"every case is also run as Eval(definitions); Eval(\"Main()\"); Eval(\"Probe()\") through Interpreter.Eval on one interpreter: same output, error of type interp.Panic, carried value (reflect.Value layers, kind) as predicted by Y, Probe() = 4242")
 	sm.DistinctNontriv = len(distinct)
